@@ -55,6 +55,8 @@ type Input struct {
 	NoCoq  bool   `json:"no_coq,omitempty"`
 	// calls made earlier in the same process that a replay must repeat first (history cases)
 	Prefix []Call `json:"prefix,omitempty"`
+	// mode 4: schemas loaded (Processor.Load) AFTER the case's schema and BEFORE ValidateData
+	LoadAfter []string `json:"load_after,omitempty"`
 }
 
 type Call struct {
@@ -116,6 +118,16 @@ func (l stubLoader) LoadDocument(u string) (*ld.RemoteDocument, error) {
 	return &ld.RemoteDocument{DocumentURL: u, Document: doc}, nil
 }
 
+type mapLoader map[string]string
+
+func (l mapLoader) LoadDocument(u string) (*ld.RemoteDocument, error) {
+	text, ok := l[u]
+	if !ok {
+		return nil, errors.New("not served")
+	}
+	return stubLoader{text}.LoadDocument(u)
+}
+
 type noParser struct{}
 
 func (noParser) ParseClaim(ctx context.Context, c verifiable.W3CCredential, o *processor.CoreClaimOptions) (*core.Claim, error) {
@@ -147,6 +159,32 @@ func runImpl(in *Input) (cls int, msg string) {
 			return cOtherErr, "Load: " + lerr.Error()
 		}
 		err = p.ValidateData([]byte(in.Data), loaded)
+	case 4:
+		// Load(A), Load(B), [Load(C)], then ValidateData(data, bytes returned for A)
+		served := map[string]string{"https://example.com/schemas/A.json": in.Schema}
+		urls := []string{"https://example.com/schemas/A.json"}
+		for i, o := range in.LoadAfter {
+			u := fmt.Sprintf("https://example.com/schemas/other-%d.json", i)
+			served[u] = o
+			urls = append(urls, u)
+		}
+		p := jsonproc.New(processor.WithValidator(jsonv.Validator{}), processor.WithParser(noParser{}),
+			processor.WithDocumentLoader(mapLoader(served)))
+		loadedA, lerr := p.Load(context.Background(), urls[0])
+		if lerr != nil {
+			return cOtherErr, "Load: " + lerr.Error()
+		}
+		snapshot := append([]byte{}, loadedA...)
+		for _, u := range urls[1:] {
+			if _, lerr := p.Load(context.Background(), u); lerr != nil {
+				return cOtherErr, "Load: " + lerr.Error()
+			}
+		}
+		err = p.ValidateData([]byte(in.Data), loadedA)
+		if string(snapshot) != string(loadedA) {
+			c := classify(err)
+			return c, "loaded-schema-overwritten: the bytes returned by Load changed after later Load calls"
+		}
 	default:
 		p := jsonproc.New(processor.WithParser(noParser{}))
 		err = p.ValidateData([]byte(in.Data), []byte(in.Schema))
@@ -192,6 +230,10 @@ func (g *gen) add(in *Input) int {
 
 // implementation-side oracle: the verdict expected by construction
 func (g *gen) oracle(in *Input, cls int, msg string) {
+	if strings.HasPrefix(msg, "loaded-schema-overwritten") {
+		g.rep.Fail("c18-loaded-schema-overwritten", in.Kind+": "+msg+"; verdict "+className[cls]+", expected "+className[in.Expect], in)
+		return
+	}
 	if cls == in.Expect {
 		return
 	}
@@ -579,7 +621,7 @@ func (g *gen) writeShards() error {
 				obs = in.Expect
 			}
 			cm := in.Mode
-			if cm == 3 {
+			if cm == 3 || cm == 4 {
 				cm = 1 // Load must hand back the served schema: same model as the facade on the served text
 			}
 			cs = append(cs, fmt.Sprintf("mkc %d %d %s %s %d", i, cm, sn, dt, obs))
@@ -626,7 +668,7 @@ func (g *gen) writeTextShards() error {
 				obs = in.Expect
 			}
 			cm := in.Mode
-			if cm == 3 {
+			if cm == 3 || cm == 4 {
 				cm = 1
 			}
 			cs = append(cs, fmt.Sprintf("mkt %d %d %s %s %d", i, cm, f.Str(in.Schema), f.Str(in.Data), obs))
@@ -672,6 +714,7 @@ func Run(cfg *common.Config) (*common.Report, error) {
 	g.bigNumberStream()
 	g.loadStream(scs, cfg.Pick(40, 600))
 	g.refDataStream()
+	g.interleavedLoadStream(scs, cfg.Pick(20, 300))
 	for i, in := range g.cases {
 		if i%83 == 0 {
 			rep.Sample(map[string]any{"input": in, "observed": className[g.obs[i]]})
